@@ -70,7 +70,7 @@ MANIFEST = {
             "warm-up epochs, critic), A2C, POMO, SymNCO (4 start/augment configurations) and PPO: loss equal to the "
             "reference surrogate recomputed with the monitor's own baseline model and ground-truth labels, gradient w.r.t. "
             "every policy/critic parameter equal to the reference gradient, no gradient through rewards/baselines, "
-            "per-instance centred shared advantages. Exploration over models x baselines x factors x successive steps.",
+            "per-instance centred shared advantages. Exploration over models x baselines x factors x successive steps. Also: advantage scaling (reward_scale) against the monitor's own running statistics, configured EMA decays (baseline beta, warm-up exp_beta), SymNCO's invariance term recomputed with ground-truth grouping.",
     "note": "Hooks are attached from the harness (no repository hooks); autograd.grad with retain_graph leaves the real backward pass untouched.",
     "technique": "runtime monitoring: hooks at calculate_loss / shared_step / manual_backward with a shadow baseline model and autograd gradient comparison",
     "design_ref": "DESIGN.md section 4 / C16",
